@@ -57,13 +57,8 @@ Section Lex.
                         | EIndex p k _ => g_is nm p k || asgU_exp p || asgU_exp k
                         | _ => false
                         end) vars || existsb asgU_exp es
-    | SLocal nms ls _ es _ =>
-      if has_nm nms then match es with e0 :: _ => asgU_exp e0 | [] => false end
-      else (fix upto (k : nat) (es : list exp) {struct es} : bool :=
-              match es with
-              | [] => false
-              | e :: es' => asgU_exp e || match k with O => false | S k' => upto k' es' end
-              end) (length (combine nms ls)) es
+    | SLocal _ _ _ es _ => existsb asgU_exp es     (* every value is analysed, and before any name of the statement is
+                                                      added (fixes/C07-multi-local-order.diff, C20-local-surplus.diff) *)
     | SLocalFunc n _ f _ => if beq_bytes nm n then false else asgU_exp f
     end
   with asgU_block (b : block) {struct b} : bool :=
@@ -74,12 +69,6 @@ Section Lex.
          | [] => match ret with Some es => existsb asgU_exp es | None => false end
          | st :: ss' => asgU_stat st || (if binds st then false else go ss')
          end) ss
-    end.
-
-  Fixpoint asgU_upto (k : nat) (es : list exp) {struct es} : bool :=
-    match es with
-    | [] => false
-    | e :: es' => asgU_exp e || match k with O => false | S k' => asgU_upto k' es' end
     end.
 
   Definition asgU_stats (ss : list stat) (ret : option (list exp)) : bool :=
@@ -106,13 +95,8 @@ Section Lex.
     intros ss ret l. reflexivity.
   Qed.
 
-  Lemma asgU_stat_local : forall nms ls at_ es l,
-      asgU_stat (SLocal nms ls at_ es l) =
-      if has_nm nms then match es with e0 :: _ => asgU_exp e0 | [] => false end
-      else asgU_upto (length (combine nms ls)) es.
-  Proof.
-    intros nms ls at_ es l. cbn [asgU_stat]. destruct (has_nm nms); reflexivity.
-  Qed.
+  Lemma asgU_stat_local : forall nms ls at_ es l, asgU_stat (SLocal nms ls at_ es l) = existsb asgU_exp es.
+  Proof. reflexivity. Qed.
 
   Lemma asgU_func : forall c f pars pl b l v co, asgU_exp (EFunc c f pars pl b l v co) = if has_nm pars then false else asgU_block b.
   Proof. reflexivity. Qed.
@@ -283,41 +267,36 @@ Section Lex.
     Lemma local_eval_u : forall es names locs s s1 rs,
         forallb shp_exp es = true -> Kn s ->
         local_eval ce names locs es s = Ok (s1, rs) ->
-        asgU_upto (length (combine names locs)) es = true -> M s1.
+        existsb asgU_exp es = true -> M s1.
     Proof.
       induction es as [|e es IH]; intros names locs s s1 rs Hes HK H Ha; [discriminate|].
       cbn [forallb] in Hes. apply andb_prop in Hes. destruct Hes as [He Hes].
       cbn [local_eval] in H. inv_bind H. destruct a as [[s2 ofn] sub].
-      destruct names as [|k names].
-      { injection H as <- <-. cbn in Ha. rewrite orb_false_r in Ha. eapply Hu; eauto. }
-      destruct locs as [|l locs].
-      { injection H as <- <-. cbn in Ha. rewrite orb_false_r in Ha. eapply Hu; eauto. }
-      inv_bind H. destruct a as [s3 rs0]. injection H as <- <-.
-      cbn [combine length asgU_upto] in Ha. apply orb_prop in Ha. destruct Ha as [Ha|Ha].
-      - eapply local_eval_M; [exact Hes | exact Hb0 |]. eapply Hu; eauto.
-      - eapply IH; [exact Hes | | exact Hb0 | exact Ha]. eapply ceK; eauto.
+      cbn [existsb] in Ha. apply orb_prop in Ha.
+      destruct names as [|k names]; [|destruct locs as [|l locs]];
+        (inv_bind H; destruct a as [s3 rs0]; injection H as <- <-;
+         destruct Ha as [Ha|Ha];
+         [eapply local_eval_M; [exact Hes | exact Hb0 |]; eapply Hu; eauto
+         |eapply IH; [exact Hes | | exact Hb0 | exact Ha]; eapply ceK; eauto]).
     Qed.
 
     Lemma local_loop_u : forall es names locs s s' rn rl flag,
-        has_nm names = false -> forallb shp_exp es = true -> Kn s ->
+        forallb shp_exp es = true -> Kn s ->
         local_loop ce names locs es s = Ok (s', rn, rl, flag) ->
-        asgU_upto (length (combine names locs)) es = true -> M s'.
+        existsb asgU_exp es = true -> M s'.
     Proof.
-      intros es names locs s s' rn rl flag _ Hes HK H Ha. unfold local_loop in H. inv_bind H. destruct a as [s1 rs].
+      intros es names locs s s' rn rl flag Hes HK H Ha. unfold local_loop in H. inv_bind H. destruct a as [s1 rs].
       injection H as H. unfold M. rewrite (local_adds_globs _ _ _ _ _ _ _ _ _ H). eapply local_eval_u; eauto.
     Qed.
 
     Lemma cg_local_u : forall names locs es s s',
         forallb shp_exp es = true -> Kn s -> cg_local ce names locs es s = Ok s' ->
-        (if has_nm names then match es with e0 :: _ => asgU_exp e0 | [] => false end
-         else asgU_upto (length (combine names locs)) es) = true -> M s'.
+        existsb asgU_exp es = true -> M s'.
     Proof.
       intros names locs es s s' Hes HK H Ha. unfold cg_local in H. inv_bind H. destruct a as [[[s1 rn] rl] flag].
       ok_inj H. unfold M. rewrite globs_add_plain. fold (M s1).
       unfold local_loop in Hb. inv_bind Hb. destruct a as [s2 rs]. injection Hb as Hb.
       unfold M. rewrite (local_adds_globs _ _ _ _ _ _ _ _ _ Hb). eapply local_eval_u; eauto.
-      destruct (has_nm names); [|exact Ha].
-      destruct es as [|e0 es]; [discriminate|]. cbn [asgU_upto]. rewrite Ha. reflexivity.
     Qed.
 
     Lemma M_update_var : forall r f s, M s -> M (update_var r f s).
